@@ -88,8 +88,14 @@ func genPoolGeom(t *rapid.T) *model.G {
 	case 1: // a flight track for the IGC encoder
 		n := rapid.IntRange(0, 6).Draw(t, "n")
 		g := &model.G{Kind: model.LineString, Layout: 5}
+		// half of the tracks leave the range that a B record can represent (the
+		// encoder clamps those: it must do so without touching the argument)
+		lonMax, latMax := 179, 89
+		if rapid.Bool().Draw(t, "outOfRange") {
+			lonMax, latMax = 400, 200
+		}
 		for i := 0; i < n; i++ {
-			g.C1 = append(g.C1, model.Bits([]float64{float64(rapid.IntRange(-179, 179).Draw(t, "lon")), float64(rapid.IntRange(-89, 89).Draw(t, "lat")), float64(rapid.IntRange(0, 9000).Draw(t, "alt")), float64(1000000000 + 60*i), float64(i)}))
+			g.C1 = append(g.C1, model.Bits([]float64{float64(rapid.IntRange(-lonMax, lonMax).Draw(t, "lon")), float64(rapid.IntRange(-latMax, latMax).Draw(t, "lat")), float64(rapid.IntRange(0, 9000).Draw(t, "alt")), float64(1000000000 + 60*i), float64(i)}))
 		}
 		return g
 	}
@@ -173,11 +179,17 @@ func buildPool(c Case) ([]*item, error) {
 		if s, err := refwkt.Write(g, nil); err == nil {
 			it.wkt = s
 		}
+		// the inputs of the decoders are rendered from a second, private object:
+		// nothing may touch the pool object before the first snapshot is taken
+		t2, err := model.Build(g, model.RouteSetCoords)
+		if err != nil {
+			return nil, err
+		}
 		if g.Layout != 5 {
-			if b, err := geojson.Marshal(t); err == nil {
+			if b, err := geojson.Marshal(t2); err == nil {
 				it.json = b
 			}
-		} else if ls, ok := t.(*geom.LineString); ok {
+		} else if ls, ok := t2.(*geom.LineString); ok {
 			var buf bytes.Buffer
 			if err := igc.NewEncoder(&buf, igc.A("XXX")).Encode(ls); err == nil {
 				it.igc = buf.Bytes()
